@@ -41,13 +41,28 @@ def seeded():
         rows.append('| `%s` (round %s) | %s | %s | %s | %s | %s |' % (n, m.get('round', '?'), m['property'], m['needs_to_manifest'].replace('|', '/'), m.get('first_run', '?'),
                     ', '.join('`%s`' % r for r in rules) or '**nothing**', m.get('action', '').replace('|', '/')))
     rows.append('')
-    rows.append('%d seeded changes confirmed and kept; %d were missed when first run against the checks of that time, all are reported now.' % (len(names), nm))
+    unrep = [n for n in names if not res.get(n)]
+    rows.append('%d seeded changes confirmed and kept; %d were missed when first run against the checks of that time; %d are reported now%s.' % (
+        len(names), nm, len(names) - len(unrep), (', not reported: ' + ', '.join('`%s`' % n for n in unrep)) if unrep else ''))
+    return '\n'.join(rows)
+
+def known():
+    d = json.load(open(os.path.join(ROOT, 'known_findings.json')))['findings']
+    rows = ['| property | rule — construct | what fails, and why it is not repaired |', '|---|---|---|']
+    n = 0
+    for f in d:
+        if f['status'] != 'known':
+            continue
+        n += 1
+        rows.append('| %s | `%s` — %s | %s |' % (f['property'], f['rule'], f['construct'].replace('|', '/')[:110], f['what'].replace('|', '/')))
+    rows.append('')
+    rows.append('%d known findings; %d entries of the file are `fixed:` records (they suppress nothing).' % (n, len(d) - n))
     return '\n'.join(rows)
 
 def main():
     p = os.path.join(ROOT, 'DESIGN.md')
     s = open(p).read()
-    for key, fn in (('fixes', fixes), ('variants', variants), ('seeded', seeded)):
+    for key, fn in (('fixes', fixes), ('variants', variants), ('seeded', seeded), ('known', known)):
         a, b = '<!-- GEN:%s -->' % key, '<!-- /GEN:%s -->' % key
         if a not in s:
             print('marker missing:', key); continue
